@@ -484,7 +484,14 @@ class Runner:
                 used.add(e.split("+=")[0])
             if any(u in NAMES and u not in model for u in used):
                 return "skip", None, None
-            call = lambda: tr.operate(e)
+            # both documented entry points: operate(text) and item access track[text] (for texts that item access
+            # recognises as expressions)
+            self.counter += 1
+            if self.counter % 3 == 0 and any(c in e for c in "+-*/^<>()="):
+                call = lambda: tr[e]
+                self.flags.add("expression_through_item_access")
+            else:
+                call = lambda: tr.operate(e)
             if any(c in e for c in "+-*{(") and k == "expr" or k == "eval":
                 self.flags.add("expr_with_temporaries")
             try:
@@ -681,7 +688,7 @@ def classify(case, witness):
 _floors_base = floors
 _FLOORS_EXTRA = {'monitors': {'decoy.unchanged': 50000, 'failed_expression.state_consistent': 500,
                               'anyop.returned_list_is_what_is_read': 3000},
-                 'classes': {'shift_by_whole_turns': 500}}
+                 'classes': {'shift_by_whole_turns': 500, 'expression_through_item_access': 2000}}
 
 
 def floors(tier):
